@@ -198,7 +198,7 @@ class VG:
         writes = mut in ("nonpayable", "payable")
         reads = mut != "pure"
         for _ in range(n):
-            k = r.randrange(22)
+            k = r.randrange(24)
             t = r.choice(INT_TYPES + ["bool", "address", "bytes32", "decimal", "Bytes[32]", "String[16]", "P", "F",
                                       "DynArray[uint256, 5]", "uint256[3]"])
             sub_env = env if reads else {kk: [x for x in vv if not x.startswith("self.")] for kk, vv in env.items()}
@@ -283,6 +283,22 @@ class VG:
                     out.append(f"{ind}{r.choice(c)}[{r.randrange(3)}] = {ex('uint256', 1)}")
             elif k == 20 and depth > 0:
                 out.append(f"{ind}if {ex('bool', 1)}:\n{ind}    raise" + r.choice(["", ' "boom"']))
+            elif k in (21, 22):
+                # constants that reach an operator only through propagation (local variable / internal-call argument):
+                # huge shift amounts, extreme operands, zero divisors.  May revert at run time; must compile.
+                c = self.fresh("c")
+                v = self.fresh("v")
+                big = r.choice(["max_value(uint256)", "2**255", "256", "257", "255", "2**128", "0", "1"])
+                op = r.choice(["<<", ">>", "<<", ">>", "*", "+", "-", "//", "%", "**", "&", "|", "^"])
+                lhs = r.choice([f"({ex('uint256', 1)} | 1)", "1", "max_value(uint256)", "7"])
+                form = r.randrange(3)
+                if form == 1 and op in ("<<", ">>"):
+                    out.append(f"{ind}{v}: uint256 = self._{'shl' if op == '<<' else 'shr'}({lhs}, {big})")
+                elif form == 2:
+                    out.append(f"{ind}{c}: uint256 = {big}\n{ind}{v}: uint256 = {c} {op} {lhs}")
+                else:
+                    out.append(f"{ind}{c}: uint256 = {big}\n{ind}{v}: uint256 = {lhs} {op} {c}")
+                env.setdefault("uint256", []).append(v)
             else:
                 out.append(f"{ind}pass")
         if not out:
@@ -362,6 +378,16 @@ def _note(x: uint256):
 @internal
 def _never(x: uint256) -> uint256:
     raise "never"
+
+@internal
+@pure
+def _shl(x: uint256, s: uint256) -> uint256:
+    return x << s
+
+@internal
+@pure
+def _shr(x: uint256, s: uint256) -> uint256:
+    return x >> s
 """
 
 
